@@ -24,9 +24,11 @@ Errors(r) ==
         p == B(c.sync0_period_ns)
         d == B(c.start_delay_ns)
         s == B(c.sync0_shift_ns)
-        tooBig == ~BLt(p, P32) \/ ~BLt(d, P32)
         n == Len(r.devices)
         wanted(i) == c.devices[i].dc # "none" /\ r.witness.modes[i] # "disabled"
+        \* a SYNC1 period counts when a device that is configured asked for it
+        tooBig == ~BLt(p, P32) \/ ~BLt(d, P32)
+                  \/ \E i \in 1..n : wanted(i) /\ r.witness.modes[i] = "sync01" /\ ~BLt(B(r.witness.sync1[i]), P32)
     IN IF "dc_result" \notin DOMAIN g THEN {}
        ELSE (IF g.dc_result \in {"panic", "hang", "budget"} THEN {<<"NotTotal", g.dc_result>>} ELSE {})
        \cup (IF tooBig /\ g.dc_result = "ok" THEN {<<"RangeNotRejected">>} ELSE {})
@@ -54,6 +56,8 @@ Errors(r) ==
                                       \cup (IF ~BLe(st, sum) THEN {<<"StartAfterRefPlusDelay", i>>} ELSE {})
                                       \cup (IF ~BLt(sum, BAdd(st, p)) THEN {<<"StartTooEarly", i>>} ELSE {})
                                       \cup (IF ~BEq(B(r.devices[i].reg_09a0), p) THEN {<<"Cycle0Wrong", i>>} ELSE {})
+                                      \cup (IF r.witness.modes[i] = "sync01" /\ ~BEq(B(r.devices[i].reg_09a4), B(r.witness.sync1[i]))
+                                            THEN {<<"Cycle1Wrong", i>>} ELSE {})
                                       \cup (IF r.devices[i].reg_0981 # (IF r.witness.modes[i] = "sync0" THEN 3 ELSE 7)
                                             THEN {<<"ActivationWrong", i, r.devices[i].reg_0981>>} ELSE {})
                               ELSE (IF r.devices[i].reg_0981 # 0 \/ ~BEq(B(r.devices[i].reg_0990), Zero)
